@@ -32,6 +32,7 @@ package graphalg
 //@   model bv
 //@   requires m != nil && i >= 0
 //@   ensures [set] forall j int :: member(*m, j) == (j == i || old(member(*m, j)))
+//@   ensures [region] region(m.marks) == old(region(m.marks)) || fresh(m.marks)
 //@   assigns *m, m.marks[*]
 
 //@ func NodeMarks.Unmark
@@ -51,7 +52,7 @@ package graphalg
 //@ func NewNodeMarks
 //@   model bv
 //@   ensures [empty] result != nil && (forall j int :: !member(*result, j))
-//@   ensures [fresh] fresh(result)
+//@   ensures [fresh] fresh(result) && fresh(result.marks)
 //@   assigns nothing
 
 // ---------------------------------------------------------------------
@@ -102,4 +103,63 @@ package graphalg
 //@   loop 4 (rdf) invariant true
 //@   loop 5 (i) modifies nothing
 //@   loop 5 (i) invariant len(df) == g.NumNodes() && fresh(df) && (forall x in 0..i :: !isnil(df[x]))
+//@   assigns nothing
+
+// ---------------------------------------------------------------------
+// Depth-first orders (C18). Model bv (NodeMarks words are bit-vectors).
+// The recursive literal `visit` is verified on its own (PreOrder#lit1,
+// PostOrder#lit1) against a contract that it also uses for its recursive
+// calls; `out` and the mark set are in/out state of the literal.
+
+//@ spec nodup(a []int) bool = forall i in 0..len(a), j in 0..len(a) :: i < j ==> a[i] != a[j]
+//@ spec allmarked(m NodeMarks, a []int) bool = forall k in 0..len(a) :: member(m, a[k])
+//@ spec wfG(g graph.Graph) bool = forall x int, k int :: 0 <= k && k < len(g.Out(x)) ==> g.Out(x)[k] >= 0
+
+//@ func PreOrder#lit1
+//@   model bv
+//@   abstract member
+//@   requires visited != nil && n >= 0 && wfG(g) && !member(*visited, n) && allmarked(*visited, out) && nodup(out)
+//@   requires forall x int :: region(g.Out(x)) != region(out) && !fresh(g.Out(x))
+//@   ensures [first]    len(out) > old(len(out)) && out[old(len(out))] == n
+//@   ensures [prefix]   forall k in 0..old(len(out)) :: out[k] == old(out[k])
+//@   ensures [marked]   allmarked(*visited, out) && member(*visited, n)
+//@   ensures [nodup]    nodup(out)
+//@   ensures [monotone] forall j int :: old(member(*visited, j)) ==> member(*visited, j)
+//@   ensures [regions]  (region(out) == old(region(out)) || fresh(out)) && (region(visited.marks) == old(region(visited.marks)) || fresh(visited.marks))
+//@   ensures [graph]    wfG(g)
+//@   loop 1 (succ) modifies *visited, visited.marks[*], old(visited.marks)[*], out[*], old(out)[*]
+//@   loop 1 (succ) invariant wfG(g) && visited != nil && len(out) > old(len(out)) && out[old(len(out))] == n && (forall k in 0..old(len(out)) :: out[k] == old(out[k])) && allmarked(*visited, out) && member(*visited, n) && nodup(out) && (forall j int :: old(member(*visited, j)) ==> member(*visited, j)) && (region(out) == old(region(out)) || fresh(out)) && (region(visited.marks) == old(region(visited.marks)) || fresh(visited.marks))
+//@   assigns *visited, visited.marks[*], out[*]
+
+//@ func PreOrder
+//@   model bv
+//@   abstract member
+//@   requires root >= 0 && wfG(g) && (forall x int :: !fresh(g.Out(x)))
+//@   ensures [root-first] len(result) >= 1 && result[0] == root
+//@   ensures [nodup]      nodup(result)
+//@   assigns nothing
+
+//@ func PostOrder#lit1
+//@   model bv
+//@   abstract member
+//@   requires visited != nil && n >= 0 && wfG(g) && !member(*visited, n) && allmarked(*visited, out) && nodup(out)
+//@   requires forall x int :: region(g.Out(x)) != region(out) && !fresh(g.Out(x))
+//@   ensures [last]     len(out) > old(len(out)) && out[len(out)-1] == n
+//@   ensures [prefix]   forall k in 0..old(len(out)) :: out[k] == old(out[k])
+//@   ensures [marked]   allmarked(*visited, out) && member(*visited, n)
+//@   ensures [nodup]    nodup(out)
+//@   ensures [monotone] forall j int :: old(member(*visited, j)) ==> member(*visited, j)
+//@   ensures [new]      forall k in old(len(out))..len(out), j int :: j == out[k] ==> !old(member(*visited, j))
+//@   ensures [regions]  (region(out) == old(region(out)) || fresh(out)) && (region(visited.marks) == old(region(visited.marks)) || fresh(visited.marks))
+//@   ensures [graph]    wfG(g)
+//@   loop 1 (succ) modifies *visited, visited.marks[*], old(visited.marks)[*], out[*], old(out)[*]
+//@   loop 1 (succ) invariant wfG(g) && visited != nil && len(out) >= old(len(out)) && (forall k in 0..old(len(out)) :: out[k] == old(out[k])) && allmarked(*visited, out) && member(*visited, n) && nodup(out) && (forall j int :: old(member(*visited, j)) ==> member(*visited, j)) && (forall k in old(len(out))..len(out) :: out[k] != n) && (forall k in old(len(out))..len(out), j int :: j == out[k] ==> !old(member(*visited, j))) && (region(out) == old(region(out)) || fresh(out)) && (region(visited.marks) == old(region(visited.marks)) || fresh(visited.marks))
+//@   assigns *visited, visited.marks[*], out[*]
+
+//@ func PostOrder
+//@   model bv
+//@   abstract member
+//@   requires root >= 0 && wfG(g) && (forall x int :: !fresh(g.Out(x)))
+//@   ensures [root-last] len(result) >= 1 && result[len(result)-1] == root
+//@   ensures [nodup]     nodup(result)
 //@   assigns nothing
